@@ -10,7 +10,7 @@ from .deb822model import Model, KEY_RE
 
 META = {
     'design_ref': 'DESIGN.md §5 C02',
-    'technique': "writer/reader agreement decided on automata: dump template extracted from _dump_format (marker-aware rstrip, strip-loss hazard), instantiated with the property's value grammar, split into reader lines and pushed through the reader's line classes, which are read off the paths of _internal_parser with locals substituted away (marked-language capture agreement for key and first line); _skip_useless_lines as a language-level filter per input type and position (bytes/str twins compared as languages); split_gpg_and_payload and the key side of validate_input decided on paths with locals substituted away (payload normalisation per append path, separator choice and accepted field names as languages); injectivity of the writer under constant substitutions on the value (automaton witness v, v.replace(old,new) both in the domain); who-may-call rule: the paragraph splitter only receives lines that went through the comment / blank-line filter; dataflow rule: the encoding that turns text lines into bytes reaches the decoder",
+    'technique': "writer/reader agreement decided on automata: dump template extracted from _dump_format (marker-aware rstrip, strip-loss hazard), instantiated with the property's value grammar, split into reader lines and pushed through the reader's line classes, which are read off the paths of _internal_parser with locals substituted away (marked-language capture agreement for key and first line); _skip_useless_lines as a language-level filter per input type and position (bytes/str twins compared as languages); split_gpg_and_payload and the key side of validate_input decided on paths with locals substituted away (payload normalisation per append path, separator choice and accepted field names as languages); injectivity of the writer under constant substitutions on the value (automaton witness v, v.replace(old,new) both in the domain); who-may-call rule: the paragraph splitter only receives lines that went through the comment / blank-line filter; dataflow rule: the encoding that turns text lines into bytes reaches the decoder; piecewise-encoding rule: every str.encode reached per piece (loop, comprehension, generator, helper) uses a decided signature-free codec",
     'level_text': 'Static decision for all keys/values of the stated grammar: every dumped line is routed by the reader\'s '
                   'regex cascade to the intended branch, the key and the trimmed first line are captured exactly, continuation '
                   'lines are kept verbatim, no line is taken as separator/PGP/comment; both newline conventions.  Structural '
@@ -664,6 +664,8 @@ def r8_piecewise_encoding(rep, src):
                     binds = [st for sc in scopes for st in ast.walk(sc) if isinstance(st, ast.Assign) and any(isinstance(t, ast.Name) and t.id == codec.id for t in st.targets)]
                     if len(binds) == 1 and isinstance(binds[0].value, ast.Constant):
                         val = binds[0].value.value
+                    elif not binds and isinstance(mod.consts.get('', {}).get(codec.id), str):
+                        val = mod.consts[''][codec.id]              # a module-level constant
             if isinstance(val, str) and val.lower().replace('_', '-') in PLAIN_CODECS:
                 rep.ok('C02.R8', f.site, what, 'codec %r writes no signature' % val)
             else:
@@ -711,6 +713,9 @@ def r7_encoding_reaches_decoder(rep, src):
     plain = {'utf-8', 'utf8', 'ascii', 'us-ascii', 'latin-1', 'latin1', 'iso-8859-1'}
     a0 = enc_calls[0].args[-1]
     codec = a0.value if isinstance(a0, ast.Constant) else (binds[0].value.value if len(binds) == 1 and isinstance(binds[0].value, ast.Constant) else None)
+    if codec is None and not binds and isinstance(a0, ast.Name) and a0.id not in [a.arg for a in f0.node.args.args + f0.node.args.kwonlyargs] \
+            and isinstance(f0.module.consts.get('', {}).get(a0.id), str):
+        codec = f0.module.consts[''][a0.id]                     # a module-level constant
     if isinstance(codec, str) and codec.lower().replace('_', '-') in plain:
         rep.ok('C02.R7', f.site, what0, 'codec %r' % codec)
     else:
